@@ -614,6 +614,8 @@ struct ValueTypeEquality
     }
 };
 
+static bool is_initialiser_list(const expression_t& expr);
+
 /** Two expressions are identical iff all the sub expressions
     are identical and if the kind, value and symbol of the
     root are identical. */
@@ -624,6 +626,15 @@ bool expression_t::equal(const expression_t& e) const
     }
 
     if (empty() || e.empty()) {  // exactly one of them is the empty expression
+        return false;
+    }
+
+    // The text of a constant and of a list depends on the type of the node: `1` and `true` hold the same value,
+    // the initialiser `{ a, b }` and the list `a, b` of a query the same children.
+    if (data->kind == CONSTANT && data->type.is_integer() != e.data->type.is_integer()) {
+        return false;
+    }
+    if (data->kind == LIST && is_initialiser_list(*this) != is_initialiser_list(e)) {
         return false;
     }
 
